@@ -4,6 +4,7 @@ import (
 	"bytes"
 	"encoding/json"
 	"fmt"
+	"sort"
 
 	"github.com/free5gc/ike/eap"
 
@@ -193,8 +194,32 @@ func c15SpareWords(c *engine.Ctx) {
 	}
 }
 
+// c15AllTypes: a received packet may carry any attribute type; the receiver's computation must cover it (the code
+// it computes equals the transmitted one). Types in ascending order, so that the known re-serialisation order
+// finding does not interfere.
+func c15AllTypes(c *engine.Ctx) {
+	for t := 0; t < 256; t++ {
+		if !c.Mine() {
+			continue
+		}
+		special := false
+		for _, st := range ref.AKASettable {
+			special = special || int(st) == t
+		}
+		if special {
+			continue
+		}
+		for _, v := range [][]byte{{0, 0}, {byte(t), 0xa5}, append([]byte{0, 3}, univ.Pat(4, t)...)} {
+			ats := []ref.AKAAttr{{T: ref.AtRAND, V: univ.Pat(16, 3)}, {T: uint8(t), V: v}, {T: ref.AtMAC, V: make([]byte, 16)}}
+			sort.SliceStable(ats, func(i, j int) bool { return ats[i].T < ats[j].T })
+			c15RefReceiver(c, &ref.EAP{Code: 2, ID: uint8(t), Method: 50, Sub: 1, AKA: ats}, fmt.Sprintf("foreign-type=%d", t))
+		}
+	}
+}
+
 func runC15(c *engine.Ctx) {
 	c15Foreign(c)
+	c15AllTypes(c)
 	c15Lookalike(c)
 	c15SpareWords(c)
 	vals := map[uint8][]byte{ref.AtRAND: univ.Pat(16, 1), ref.AtAUTN: univ.Pat(16, 2), ref.AtRES: univ.Pat(7, 3), ref.AtMAC: univ.Pat(16, 4),
